@@ -30,7 +30,9 @@ class Applied:
     touched_descr: set = field(default_factory=set)
     created: set = field(default_factory=set)
     deleted: set = field(default_factory=set)
+    deleted_ctx: set = field(default_factory=set)  # context state handles removed (no report exists for that)
     exception: BaseException | None = None
+    tb: list = field(default_factory=list)
 
 
 STR_POOL = ['a', 'Müller', 'x y', '東京', 'O\'Neil & <Co>', 'zz😀', 'line1', '0', 'ÄÖÜ', 'abc def']
@@ -229,8 +231,43 @@ DEFAULT_WEIGHTS = {
     'metric': 10, 'alert': 6, 'component': 5, 'operational': 3, 'rt': 3, 'context': 7, 'location': 2,
     'descr_update': 4, 'descr_create': 4, 'descr_delete': 3, 'descr_recreate': 2, 'descr_parent_child': 3, 'descr_with_state': 3,
     'descr_multi': 3, 'entity_stash': 2, 'entity_write_stashed': 2,
-    'empty': 1, 'abort': 2, 'unget': 1, 'reject': 2,
+    'empty': 1, 'abort': 2, 'unget': 1, 'reject': 2, 'descr_ctx_entity': 1,
+    'exotic': 0,       # flag only (never drawn as a kind): allows shapes whose reports describe objects that never were visible
+    'ctx_delete': 0,   # deleting a context state cannot be reported to consumers (no BICEPS message for it): provider-only workloads enable it
 }
+
+
+def weights_allow_ctx_delete(memo) -> bool:
+    return bool(memo.get('_ctx_delete_allowed'))
+
+
+def _prelude(cat, weights, memo) -> list:
+    ops = []
+    if cat['context']:
+        d = cat['context'][0]
+        ops += [{'op': 'context', 'sub': 'new', 'descr': d, 'new_handle': 'pre1_' + d},
+                {'op': 'context', 'sub': 'new_assoc', 'descr': d, 'new_handle': 'pre2_' + d},
+                {'op': 'descr_update', 'handles': [d], 'iface': 'classic'},      # a context descriptor with several states is re-versioned
+                {'op': 'descr_update', 'handles': [d], 'iface': 'entity'},
+                {'op': 'descr_ctx_entity', 'sub': 'update_state', 'descr': d, 'state': 'pre1_' + d, 'new_handle': 'pre3_' + d, 'iface': 'entity'},
+                {'op': 'descr_ctx_entity', 'sub': 'add_state', 'descr': d, 'state': 'pre1_' + d, 'new_handle': 'pre4_' + d, 'iface': 'entity'}]
+    if cat['channel']:
+        ch = cat['channel'][0]
+        ops.append({'op': 'descr_parent_child', 'sub': 'add_child+add_child+update_parent', 'parent': ch, 'child': 'pre_c1', 'old_children': [],
+                    'new_children': ['pre_c1', 'pre_c2'], 'iface': 'classic'})
+    for kind in ('component', 'context', 'descriptor'):
+        ops.append({'op': 'empty', 'kind': kind})
+    return ops
+
+
+def _prelude_applicable(mdib, op) -> bool:
+    if op['op'] == 'descr_ctx_entity':
+        return mdib.context_states.handle.get_one(op['state'], allow_none=True) is not None
+    if op['op'] == 'descr_parent_child':
+        return mdib.descriptions.handle.get_one('pre_c1', allow_none=True) is None
+    if op['op'] == 'context':
+        return mdib.context_states.handle.get_one(op['new_handle'], allow_none=True) is None
+    return True
 
 
 def gen_op(rng: random.Random, mdib, memo: dict, weights: dict | None = None) -> dict:
@@ -240,7 +277,18 @@ def gen_op(rng: random.Random, mdib, memo: dict, weights: dict | None = None) ->
     memo.setdefault('created', [])
     memo.setdefault('deleted', [])
     memo['n'] = memo.get('n', 0) + 1
-    kinds = list(weights)
+    memo['_ctx_delete_allowed'] = weights.get('ctx_delete', 0) > 0
+    memo['_exotic'] = weights.get('exotic', 0) > 0
+    kinds = [k for k in weights if weights[k] > 0 and k != 'exotic']
+    # every history starts with the shapes that random drawing reaches too rarely (each was needed to expose a defect once)
+    if '_prelude' not in memo:
+        memo['_prelude'] = _prelude(cat, weights, memo)
+    while memo['_prelude']:
+        op = memo['_prelude'].pop(0)
+        if weights.get(op['op'], 0) > 0 and _prelude_applicable(mdib, op):
+            op['seed'] = rng.randrange(1 << 30)
+            op.setdefault('iface', 'classic')
+            return op
     for _ in range(20):
         kind = rng.choices(kinds, [weights[k] for k in kinds])[0]
         op = _gen_kind(kind, rng, mdib, cat, memo)
@@ -272,6 +320,28 @@ def _gen_kind(kind, rng, mdib, cat, memo):
         if sub == 'update2':
             op['handles'] = rng.sample(existing, min(len(existing), 2))
         return op
+    if kind == 'ctx_delete':
+        have = [d for d in cat['context'] if mdib.context_states.descriptor_handle.get(d)]
+        if not have:
+            return None
+        descr = rng.choice(have)
+        existing = sorted(s.Handle for s in mdib.context_states.descriptor_handle.get(descr, []))
+        sub = rng.choice(['delete', 'delete', 'delete_and_update', 'delete_and_new'])
+        if sub == 'delete_and_update' and len(existing) < 2:
+            sub = 'delete'
+        victims = rng.sample(existing, 1 if sub != 'delete' or len(existing) < 2 else rng.choice([1, 2]))
+        return {'op': 'ctx_delete', 'sub': sub, 'descr': descr, 'victims': victims, 'iface': 'entity',
+                'other': next((h for h in existing if h not in victims), None), 'new_handle': f'ctxd{memo["n"]}_{rng.randrange(1000)}'}
+    if kind == 'descr_ctx_entity':
+        if not cat['context']:
+            return None
+        descr = rng.choice(cat['context'])
+        existing = sorted(s.Handle for s in mdib.context_states.descriptor_handle.get(descr, []))
+        sub = rng.choice(['update_descr_only', 'update_state', 'add_state'] + (['remove_state'] if weights_allow_ctx_delete(memo) else []))
+        if sub in ('update_state', 'remove_state') and not existing:
+            sub = 'update_descr_only'
+        return {'op': 'descr_ctx_entity', 'sub': sub, 'descr': descr, 'state': rng.choice(existing) if existing else None,
+                'new_handle': f'ctxe{memo["n"]}_{rng.randrange(1000)}', 'iface': 'entity'}
     if kind == 'location':
         locs = [d for d in cat['context'] if mdib.descriptions.handle.get_one(d).NODETYPE == pm.LocationContextDescriptor]
         if not locs:
@@ -308,18 +378,23 @@ def _gen_kind(kind, rng, mdib, cat, memo):
         parent = rng.choice(cat['channel'])
         children = sorted(d.Handle for d in mdib.descriptions.parent_handle.get(parent, []))
         sub = rng.choice(['update_parent+add_child', 'add_child+update_parent', 'update_parent+update_child', 'update_child+update_parent',
-                          'update_parent+remove_child', 'remove_child+update_parent'])
-        if 'update_child' in sub or 'remove_child' in sub:
-            if not children:
-                return None
-            child = rng.choice(children)
-        else:
-            child = f'pc{memo["n"]}_{rng.randrange(1000)}'
-        return {'op': 'descr_parent_child', 'sub': sub, 'parent': parent, 'child': child}
+                          'update_parent+remove_child', 'remove_child+update_parent',
+                          # the parent is re-versioned several times by child operations before / after it is updated itself
+                          'add_child+add_child+update_parent', 'add_child+remove_child+update_parent', 'remove_child+add_child+update_parent',
+                          'update_parent+add_child+add_child', 'add_child+update_parent+add_child', 'remove_child+remove_child+update_parent'])
+        need = sub.count('remove_child') + sub.count('update_child')
+        if need > len(children):
+            return None
+        old_children = rng.sample(children, need)
+        new_children = [f'pc{memo["n"]}{"abc"[i]}_{rng.randrange(1000)}' for i in range(sub.count('add_child'))]
+        child = (old_children + new_children)[0]
+        return {'op': 'descr_parent_child', 'sub': sub, 'parent': parent, 'child': child, 'old_children': old_children, 'new_children': new_children}
     if kind == 'descr_multi':
         # several related descriptors in ONE transaction
         sub = rng.choice(['two_children', 'child_then_parent', 'parent_then_child', 'delete_two_siblings', 'create_and_delete_sibling',
-                          'recreate_in_one'])
+                          'recreate_in_one', 'child_then_grandparent', 'grandparent_then_child', 'create_then_delete_parent'])
+        if sub == 'create_then_delete_parent' and not memo.get('_exotic'):
+            sub = 'two_children'   # a descriptor that exists only inside one transaction: only the provider-only workloads (C02, C03) use it
         chans = [c for c in cat['channel']]
         if not chans:
             return None
@@ -335,6 +410,18 @@ def _gen_kind(kind, rng, mdib, cat, memo):
             parent = rng.choice(withkids)
             child = sorted(d.Handle for d in mdib.descriptions.parent_handle.get(parent, []))[0]
             steps = [['delete', child], ['delete', parent]] if sub == 'child_then_parent' else [['delete', parent], ['delete', child]]
+        elif sub in ('child_then_grandparent', 'grandparent_then_child'):
+            withkids = [c for c in chans if mdib.descriptions.parent_handle.get(c)]
+            if not withkids or len(cat['vmd']) < 2:
+                return None
+            parent = rng.choice(withkids)
+            child = sorted(d.Handle for d in mdib.descriptions.parent_handle.get(parent, []))[0]
+            grand = mdib.descriptions.handle.get_one(parent).parent_handle
+            steps = [['delete', child], ['delete', grand]] if sub == 'child_then_grandparent' else [['delete', grand], ['delete', child]]
+        elif sub == 'create_then_delete_parent':   # a child is created under a descriptor that the same transaction removes afterwards
+            if len(chans) < 2:
+                return None
+            steps = [['create', f'm{n}d_{rng.randrange(1000)}', parent], ['delete', parent]]
         elif sub == 'delete_two_siblings':
             if len(children) < 2:
                 return None
@@ -367,7 +454,8 @@ def _gen_kind(kind, rng, mdib, cat, memo):
         return {'op': 'empty', 'kind': rng.choice(['metric', 'alert', 'component', 'operational', 'context', 'descriptor', 'rt'])}
     if kind == 'abort':
         base = _gen_kind(rng.choice(['metric', 'alert', 'component', 'context', 'descr_update', 'descr_create', 'descr_recreate', 'descr_recreate',
-                                     'descr_delete', 'descr_multi']), rng, mdib, cat, memo)
+                                     'descr_delete', 'descr_multi', 'descr_ctx_entity'] + (['ctx_delete'] if weights_allow_ctx_delete(memo) else [])),
+                         rng, mdib, cat, memo)
         if base is None:
             return None
         base['abort_at'] = rng.choice(['start', 'middle', 'end'])
@@ -409,6 +497,8 @@ def apply_op(mdib, op: dict, memo: dict | None = None) -> Applied:
     except Exception as ex:  # noqa: BLE001
         ap.outcome = f'raised:{type(ex).__name__}'
         ap.exception = ex
+        import traceback
+        ap.tb = [f'{f.filename.rsplit("/", 1)[-1]}:{f.lineno}:{f.name}' for f in traceback.extract_tb(ex.__traceback__)][-6:]
     if memo is not None and ap.outcome == 'ok' and ap.expect == 'commit':
         memo.setdefault('created', []).extend(sorted(ap.created))
         memo.setdefault('deleted', []).extend(sorted(ap.deleted))
@@ -481,6 +571,50 @@ def _x_context(mdib, op, rng, ap):
             if not ap.touched_ctx:
                 ap.expect = 'empty' if ap.expect == 'commit' else ap.expect
         _maybe_abort(op, 'end')
+
+
+def _x_ctx_delete(mdib, op, rng, ap):
+    """a context state is removed through the entity interface (+ optionally another state updated / created in the same transaction)"""
+    ent = mdib.entities.by_handle(op['descr'])
+    handles = list(op['victims'])
+    for h in op['victims']:
+        del ent.states[h]
+    if op['sub'] == 'delete_and_update' and op.get('other') in ent.states:
+        mutate_context_state(ent.states[op['other']], rng)
+        handles.append(op['other'])
+    if op['sub'] == 'delete_and_new':
+        st = ent.new_state(op['new_handle'])
+        mutate_context_state(st, rng)
+        handles.append(st.Handle)
+    rng.shuffle(handles)
+    with mdib.context_state_transaction() as mgr:
+        _maybe_abort(op, 'start')
+        mgr.write_entity(ent, handles)
+        _maybe_abort(op, 'middle')
+        _maybe_abort(op, 'end')
+    ap.touched_ctx |= set(handles)
+    ap.deleted_ctx = set(op['victims'])
+
+
+def _x_descr_ctx_entity(mdib, op, rng, ap):
+    """a context entity (descriptor + all its states) written in a DESCRIPTOR transaction"""
+    ent = mdib.entities.by_handle(op['descr'])
+    mutate_descriptor(ent.descriptor, rng)
+    if op['sub'] == 'update_state':
+        mutate_context_state(ent.states[op['state']], rng)
+    elif op['sub'] == 'remove_state':
+        del ent.states[op['state']]
+        ap.deleted_ctx = {op['state']}
+    elif op['sub'] == 'add_state':
+        st = ent.new_state(op['new_handle'])
+        mutate_context_state(st, rng)
+    with mdib.descriptor_transaction() as mgr:
+        _maybe_abort(op, 'start')
+        mgr.write_entity(ent)
+        _maybe_abort(op, 'middle')
+        _maybe_abort(op, 'end')
+    ap.touched_descr.add(op['descr'])
+    ap.touched_ctx |= {s.Handle for s in mdib.context_states.descriptor_handle.get(op['descr'], [])} | ({op['state']} if op['state'] else set())
 
 
 def _x_location(mdib, op, rng, ap):
@@ -572,12 +706,20 @@ def _x_descr_delete(mdib, op, rng, ap):
 
 
 def _x_parent_child(mdib, op, rng, ap):
-    first, second = op['sub'].split('+')
-    parent, child = op['parent'], op['child']
-    if 'remove_child' in op['sub']:
-        ap.deleted |= _subtree(mdib, child)
+    steps = op['sub'].split('+')
+    parent = op['parent']
+    old_children, new_children = list(op.get('old_children', [op['child']])), list(op.get('new_children', [op['child']]))
+    touched_children = set()
     with mdib.descriptor_transaction() as mgr:
-        for step in (first, second):
+        for step in steps:
+            if step in ('update_child', 'remove_child'):
+                child = old_children.pop(0)
+                touched_children.add(child)
+                if step == 'remove_child':
+                    ap.deleted |= _subtree(mdib, child)
+            elif step == 'add_child':
+                child = new_children.pop(0)
+                touched_children.add(child)
             if step == 'update_parent':
                 if op.get('iface') == 'entity':
                     ent = mdib.entities.by_handle(parent)
@@ -606,8 +748,8 @@ def _x_parent_child(mdib, op, rng, ap):
                     mutate_descriptor(mgr.get_descriptor(child), rng)
             elif step == 'remove_child':
                 mgr.remove_descriptor(child)
-    ap.touched_descr |= {parent, child} | ap.deleted
-    ap.touched_states |= {parent, child} | ap.deleted
+    ap.touched_descr |= {parent} | touched_children | ap.deleted
+    ap.touched_states |= {parent} | touched_children | ap.deleted
 
 
 def _x_descr_multi(mdib, op, rng, ap):
@@ -732,7 +874,7 @@ def _x_reject(mdib, op, rng, ap):
 _EXEC = {'metric': _x_state, 'alert': _x_state, 'component': _x_state, 'operational': _x_state, 'rt': _x_state,
          'context': _x_context, 'location': _x_location, 'descr_update': _x_descr_update, 'descr_create': _x_descr_create,
          'descr_delete': _x_descr_delete, 'descr_multi': _x_descr_multi, 'descr_parent_child': _x_parent_child, 'descr_with_state': _x_descr_with_state,
-         'empty': _x_empty, 'unget': _x_unget, 'reject': _x_reject,
+         'empty': _x_empty, 'unget': _x_unget, 'reject': _x_reject, 'ctx_delete': _x_ctx_delete, 'descr_ctx_entity': _x_descr_ctx_entity,
          'entity_stash': _x_entity_stash, 'entity_write_stashed': _x_entity_write_stashed}
 
 
